@@ -1,4 +1,5 @@
 import PgFdr.Proofs.C01
+import PgFdr.Proofs.C06
 
 /-!
 # C01 — protein-group q-values are the monotone decoy-based FDR estimate
@@ -100,16 +101,45 @@ theorem threshold_sound (groups : List (List String)) (scores : List Rat) (f q :
   obtain ⟨-, hf, hq⟩ := (calc_ok_iff _ _ _ _ _).mp h
   exact threshold_sound_ranked isDecoyGroup (ranked groups scores) f q t hf hq S rfl
 
+/-- "Reported rows carry exactly the score and q-value computed on that ranking, in the same
+    relative order, even when other ranked groups are withheld from the report": when the report is
+    built (`C06.fromProteinGroups`, the model of `from_protein_groups`) with the q-values of the
+    ranking, there is a strictly increasing list `idx` of ranks, one per row, such that row `k` lists
+    proteins of the ranked group at rank `idx[k]` (not a placeholder) and carries exactly the score
+    and the q-value of that rank.  Ranks after the sentinel never reach the report (there is no
+    q-value for them); placeholder groups and groups without a listed protein are skipped without
+    shifting anything -/
+theorem report_alignment (groups : List (List String)) (infos : List (List Evidence))
+    (scores : List Rat) (f q : List Rat) (cutoff : Option Rat) (keepAll : Bool) (rows : List C06.RowData)
+    (hq : calcProteinFdrs groups scores = .ok (f, q))
+    (h : C06.fromProteinGroups groups infos scores q cutoff keepAll = .ok rows) :
+    ∃ idx : List Nat, idx.Pairwise (· < ·) ∧ idx.length = rows.length ∧
+      ∀ (k i : Nat), idx[k]? = some i →
+        ∃ row g s v, rows[k]? = some row ∧ (ranked groups scores)[i]? = some g ∧
+          scores[i]? = some s ∧ q[i]? = some v ∧ row.score = s ∧ row.qValue = v ∧
+          isObsolete g = false ∧ (∀ p ∈ row.proteins, p ∈ g) ∧ row.proteins ≠ [] := by
+  obtain ⟨idx, h1, h2, h3⟩ := C06.report_alignment_aux groups infos scores q cutoff keepAll rows h
+  obtain ⟨hqlen, -⟩ := qvals_spec groups scores f q hq
+  refine ⟨idx, h1, h2, ?_⟩
+  intro k i hk
+  obtain ⟨row, g, info, s, v, hr, hg, -, hs, hv, hrs, hrq, ho, hf⟩ := h3 k i hk
+  have hi : i < (ranked groups scores).length := by
+    rw [← hqlen]; exact (List.getElem?_eq_some_iff.mp hv).1
+  obtain ⟨hp, -, -, -, -, -, -, -, -, hne, -⟩ := C06.fromProteinGroup_some g info v s cutoff keepAll row hf
+  refine ⟨row, g, s, v, hr, ?_, hs, hv, hrs, hrq, ho, ?_, hne⟩
+  · rw [ranked_getElem? groups scores i hi]; exact hg
+  · intro p hpm
+    rw [hp] at hpm
+    exact (List.mem_filter.mp hpm).1
+
 /-- "a group counts as decoy only if all of its proteins are decoys": exactly what `helpers.is_decoy`
     computes — every member contains the marker `REV__` (Python `in`: anywhere in the identifier), or
     every member contains the marker `rev_`; one marker must serve the whole group -/
 theorem decoy_only_if_all (g : List String) :
     isDecoyGroup g = true ↔
       (∀ p ∈ g, ∃ a b, p.toList = a ++ "REV__".toList ++ b) ∨
-      (∀ p ∈ g, ∃ a b, p.toList = a ++ "rev_".toList ++ b) := by
-  unfold isDecoyGroup isDecoy
-  rw [Bool.or_eq_true, allContain_iff, allContain_iff]
-  simp only [strContains, containsSub_iff]
+      (∀ p ∈ g, ∃ a b, p.toList = a ++ "rev_".toList ++ b) :=
+  decoy_only_if_all_aux g
 
 /-- the two markers are the ones the source declares (`Generated.decoyMarkers` is re-translated from
     `helpers.py` on every run) -/
@@ -143,5 +173,14 @@ example : ((((ranked exGroups exScores).zip [1/2, 2/3, 2/3, (1 : Rat)]).filter
   decide +kernel
 
 example : ∃ e, calcProteinFdrs [["A"]] [-100] = .error e := ⟨_, rfl⟩
+
+/-- the report built with these q-values: the placeholder at rank 3 is withheld, rank 4 is behind the
+    sentinel; rows come from ranks 0, 1, 2 with their scores and q-values -/
+example : (C06.fromProteinGroups exGroups
+      [[⟨1/100, "P0", ["A"]⟩], [⟨1/100, "P1", ["REV__B"]⟩], [⟨1/100, "P2", ["REV__C", "rev_D"]⟩],
+       [⟨1/100, "P3", ["OBSOLETE__REV__E"]⟩], [⟨1/100, "P4", ["F"]⟩]]
+      exScores [1/2, 2/3, 2/3, 1] none false).map (fun rows => rows.map (fun r => (r.proteins, r.score, r.qValue))) =
+    .ok [(["A"], 5, 1/2), (["REV__B"], 4, 2/3), (["REV__C", "rev_D"], 4, 2/3)] := by
+  decide +kernel
 
 end PgFdr.C01
